@@ -374,7 +374,8 @@ Proof.
   - destruct (t_cancelled tk).
     + eapply good_trans. 2: apply sr_exception_good; auto.
       eapply evolves_trans. apply same4_evolves, upd_task_same. apply same4_evolves, tr_close_same.
-    + eapply good_trans. 2: { apply sr_after_send_good; auto. apply do_send_evolves. apply do_send_acts. }
+    + destruct (has_waiter k t (s_ready s)). { split. apply evolves_refl. apply acts_ok_nil. }
+      eapply good_trans. 2: { apply sr_after_send_good; auto. apply do_send_evolves. apply do_send_acts. }
       eapply evolves_trans. apply same4_evolves, upd_task_same. apply same4_evolves. same4_tac.
   - eapply good_trans. 2: apply sr_exception_good; auto. apply same4_evolves, upd_task_same.
   - destruct (fstat_of s f).
@@ -481,7 +482,7 @@ Proof.
   - split. apply evolves_refl. apply acts_ok_nil.
   - destruct (get_task k (s_tasks s)) as [tk|]. 2: { split. apply evolves_refl. apply acts_ok_nil. }
     destruct (t_pc tk); try (split; [apply evolves_refl | apply acts_ok_nil]).
-    destruct (t_cancelled tk); split; cbn [fst snd]; try apply acts_ok_nil; try apply evolves_refl. apply same4_evolves, push_same.
+    destruct (_ || _); split; cbn [fst snd]; try apply acts_ok_nil; try apply evolves_refl. apply same4_evolves, push_same.
   - destruct (tstate_of s t); try (split; [apply evolves_refl | apply acts_ok_nil]).
     destruct i. apply received_good.
     split; cbn [fst snd]. 2: apply acts_ok_nil. eapply evolves_trans. apply close_transport_evolves. apply same4_evolves, tr_close_same.
